@@ -1016,3 +1016,18 @@ package mocrelay
 //@   serves C11
 //@   pure
 //@   ensures result == nipValidClientMsg(msg)
+
+// ---------------------------------------------------------------------------------------------
+// C13: a write (or ping) to the peer is abandoned after SendTimeout whatever the other options are
+
+//@ func Relay.sendMsgWithTimeout
+//@   serves C13
+//@   requires relay != nil && conn != nil
+//@   writes ghost(lastwritectx, conn)
+//@   ensures[C13] relay.opt.SendTimeout > 0 ==> writeBoundedBy(conn, relay.opt.SendTimeout)
+
+//@ func Relay.sendPingWithTimeout
+//@   serves C13
+//@   requires relay != nil && conn != nil
+//@   writes ghost(lastpingctx, conn)
+//@   ensures[C13] relay.opt.SendTimeout > 0 ==> pingBoundedBy(conn, relay.opt.SendTimeout)
